@@ -210,7 +210,11 @@ func checkC05(c *Ctx) {
 				if !ok {
 					return
 				}
-				switch calleeShort(&call.Call) {
+				sh := calleeShort(&call.Call)
+				if strings.HasPrefix(sh, "addBytes") {
+					sh = "addBytes" // addBytes, addBytesUp / addBytesDown: the tunnel's own counters
+				}
+				switch sh {
 				case "addBytes", "AddBytesUp", "AddBytesDown", "AddBytes":
 					a := argsOf(&call.Call)
 					okc := len(a) > 0 && len(nw) > 0 && dependsOn(a[0], nw[0]) && (len(n) == 0 || !dependsOnAvoiding(a[0], n[0], wr))
@@ -221,7 +225,7 @@ func checkC05(c *Ctx) {
 			// every delivered count is in the tunnel's counter before halfPipe returns (whichever exit is taken)
 			if len(nw) > 0 {
 				isCounter := func(name string, _ *ssa.CallCommon) bool {
-					return strings.HasSuffix(name, ".addBytes") || strings.HasSuffix(name, "tunnelStats).addBytes")
+					return strings.Contains(name, "tunnelStats).addBytes")
 				}
 				publishes := map[ssa.Instruction]bool{}
 				eachInstr(hp, func(in ssa.Instruction) {
@@ -232,7 +236,7 @@ func checkC05(c *Ctx) {
 					if _, isDefer := in.(*ssa.Defer); isDefer {
 						return
 					}
-					if calleeShort(ci.Common()) == "addBytes" {
+					if strings.HasPrefix(calleeShort(ci.Common()), "addBytes") && strings.Contains(calleeName(ci.Common()), "tunnelStats).") {
 						if a := argsOf(ci.Common()); len(a) > 0 && dependsOn(a[0], nw[0]) {
 							publishes[in] = true
 						}
